@@ -52,7 +52,7 @@ theorem step_fields {c c' : Chain} {i : StepIn} (h : c.step i = some c') :
     ∃ cur, c.current = some cur ∧
       c'.iteration = c.iteration + 1 ∧ c'.lastclear = c.lastclear ∧
       c'.scratch = setAt c.scratch c.len (stepRec c cur i) ∧
-      c'.start = c.start ∧ c'.calls = c.calls + 1 ∧ c'.beta = c.beta ∧
+      c'.start = c.start ∧ c'.calls = c.calls + 1 + extraCalls c.props ∧ c'.beta = c.beta ∧
       c'.scratchlen = c.scratchlen ∧ c'.hasblobs = c.hasblobs ∧
       c'.proposed = some (jointJump cur.pos c.props i.jumps) := by
   unfold step at h
